@@ -72,8 +72,8 @@ W_NoOvertaking  == ~(mi[1] = 1 /\ fi[1] = 1 /\ mi[2] > 1)        \* sender 2 com
 W_NeverTorn     == ~torn
 W_NoLongFrame   == ~(AllDone /\ \E s \in S : \E j \in 1..Len(prog[s]) : \E f \in 1..Len(prog[s][j]) : Len(prog[s][j][f]) > ShortMax)
 WNames == <<"W_NoOvertaking", "W_NoLongFrame">> \o (IF Grain = "frame" THEN <<"W_NeverTorn">> ELSE <<>>)
-WVals  == <<W_NoOvertaking, W_NoLongFrame>> \o (IF Grain = "frame" THEN <<W_NeverTorn>> ELSE <<>>)
+WVal(k) == CASE k = 1 -> W_NoOvertaking [] k = 2 -> W_NoLongFrame [] k = 3 -> W_NeverTorn
 ASSUME \A k \in 1..3 : TLCSet(k, FALSE)
-TrackW == \A k \in 1..Len(WNames) : IF ~WVals[k] /\ ~TLCGet(k) THEN TLCSet(k, TRUE) ELSE TRUE
+TrackW == \A k \in 1..Len(WNames) : IF TLCGet(k) THEN TRUE ELSE IF ~WVal(k) THEN TLCSet(k, TRUE) ELSE TRUE
 WitnessesSeen == PrintT("INFO " \o ToJson([unseen |-> { WNames[k] : k \in { j \in 1..Len(WNames) : ~TLCGet(j) } }]))
 =============================================================================
